@@ -26,6 +26,7 @@ def loBytes : Bytes → Bytes
   | 0xC3 :: b :: rest =>
     if 0x80 ≤ b ∧ b ≤ 0x9E ∧ b ≠ 0x97 then 0xC3 :: (b + 0x20) :: loBytes rest
     else 0xC3 :: b :: loBytes rest
+  | 0xC5 :: 0xB8 :: rest => 0xC3 :: 0xBF :: loBytes rest  -- Ÿ ↦ ÿ
   | 0xC7 :: 0x84 :: rest => 0xC7 :: 0x86 :: loBytes rest  -- Ǆ ↦ ǆ
   | 0xC7 :: 0x85 :: rest => 0xC7 :: 0x86 :: loBytes rest  -- ǅ ↦ ǆ
   | 0xC4 :: 0xB0 :: rest => 0x69 :: loBytes rest          -- İ ↦ i  (Go: 'i', without the combining dot)
@@ -104,6 +105,9 @@ structure DState where
   c : Coll := { live := [] }
   hooks : Bool := true
   searches : List (Nat × Search) := []
+  /-- searches whose remaining behaviour depends on the unspecified order of an unordered
+      result (a member became unreadable): only checked loosely from then on -/
+  tainted : List Nat := []
   deriving Inhabited
 
 def DState.env (d : DState) : Env := mkEnv d.c.live d.hooks
@@ -162,6 +166,14 @@ def cmpCollect (orderPos : Option Nat) (model full impl : List Obj) : Bool :=
   (impl.map (·.uuid)).eraseDups.length == impl.length &&
   (model.length != full.length || sortObjs impl == sortObjs model)
 
+/-- the members of a search that can currently be read -/
+def readableOf (c : Coll) (s : Search) : List Obj :=
+  match c.schema with
+  | (c, .ok l) => (s.uuids l).filterMap (fun u => match c.get u with
+                                                  | (_, .ok o) => some o
+                                                  | _ => none)
+  | _ => []
+
 def parseObjs (ts : List String) : Option (List Obj) := ts.mapM parseObj
 
 /-- strip the surrounding brackets of a printed list and parse its objects -/
@@ -213,7 +225,13 @@ def DState.exec (d : DState) (op : String) (args : List String) (impl : String) 
     pure ({ d with c := c }, resOf r)
   | "many", _ => do
     let wrong ← kv args "wrong"
-    let wrongAt ← (if wrong == "-" then some none else wrong.toNat?.map some)
+    let wrongAt ← (if wrong == "-" then some none else
+      match wrong.splitOn "," with
+      | [k, u] => do
+        let k ← k.toNat?
+        let u ← parseBool u
+        pure (some (k, u))
+      | _ => none)
     let news ← (kv args "news").bind parseNews
     let os ← (args.filter (fun a => "o=".isPrefixOf a)).mapM (fun a => parseObj ((a.drop 2).toString))
     -- uuids are assigned before validation in the batch path
@@ -299,22 +317,38 @@ def DState.exec (d : DState) (op : String) (args : List String) (impl : String) 
   | "collect", [sid] => do
     let sid ← sid.toNat?
     let s ← d.getS sid
-    let (_, _, full, _) := Coll.collect d.c { s with limit := maxUint }
+    let (_, _, full, fe) := Coll.collect d.c { s with limit := maxUint }
+    let readable := readableOf d.c s
     let (c, s', out, e) := Coll.collect d.c s
-    let d' := ({ d with c := c }).setS sid s'
+    let loose := d.tainted.contains sid || (s.orderPos.isNone && s.err.isNone && fe.isSome)
+    let d' := ({ d with c := c, tainted := if loose then sid :: d.tainted else d.tainted }).setS sid s'
     let txt := printObjs out ++ " " ++ printErrOpt e
     -- implementation text: "[objs] R"
     let agree := match impl.splitOn "] " with
       | [objs, r] =>
         match parseObjList (objs ++ "]") with
-        | some io => r == printErrOpt e && (e.isSome || cmpCollect s.orderPos out full io)
+        | some io =>
+          if loose then
+            io.all (fun o => readable.contains o) && (io.map (·.uuid)).eraseDups.length == io.length &&
+              (r == "ok" || some r == fe.map (fun e => "E:" ++ e.print))
+          else r == printErrOpt e && (e.isSome || cmpCollect s.orderPos out full io)
         | none => false
       | _ => false
     pure (d', { txt := txt, agree := some agree })
   | "one", [sid] => do
     let sid ← sid.toNat?
     let s ← d.getS sid
-    let (_, _, full, _) := Coll.collect d.c { s with limit := maxUint }
+    let (_, _, full, fe) := Coll.collect d.c { s with limit := maxUint }
+    let readable := readableOf d.c s
+    let loose := d.tainted.contains sid || (s.orderPos.isNone && s.err.isNone && fe.isSome)
+    if loose then
+      let (c, s', r) := Coll.one d.c s
+      let d' := ({ d with c := c, tainted := sid :: d.tainted }).setS sid s'
+      let agree := match parseObj impl with
+        | some io => readable.contains io
+        | none => some impl == fe.map (fun e => "E:" ++ e.print) || impl == "E:noobject"
+      pure (d', { txt := (match r with | .ok o => o.print | .err e => "E:" ++ e.print | .panic => "PANIC"), agree := some agree })
+    else
     let (c, s', r) := Coll.one d.c s
     let d' := ({ d with c := c }).setS sid s'
     match r with
